@@ -105,7 +105,9 @@ def c17_jobs(tier):
 
 
 def c13_jobs(tier):
-    return [sim("c13-walks", "c13", require_counters=["walks_completed", "hostile_tokens_tried", "negative_size_rejected", "hostile_token_served", "hostile_token_rejected"])]
+    return [sim("c13-walks", "c13", require_counters=["walks_completed", "hostile_tokens_tried", "negative_size_rejected", "hostile_token_served", "hostile_token_rejected"]),
+            # listings after racing creates / deletes of one name (the exact model of the delete / re-create walk)
+            sim("c13-after-races", "c11", require_nontrivial=False)]
 
 
 def c15_jobs(tier):
@@ -184,7 +186,8 @@ def c10_jobs(tier):
 
 
 def c11_jobs(tier):
-    jobs = [sim("c11-walk", "c11", require_counters=["cross_view_checks", "recreations_with_cross_view", "create_delete_races", "abandoned_control_requests", "stale_topic_handle_deletes", "delete_inside_publish_burst"])]
+    jobs = [sim("c11-push-lifecycle", "c14r", require_nontrivial=False),
+            sim("c11-walk", "c11", require_counters=["cross_view_checks", "recreations_with_cross_view", "create_delete_races", "abandoned_control_requests", "stale_topic_handle_deletes", "delete_inside_publish_burst"])]
     if tier == "thorough":
         jobs.append(sim("c11-walk-h2", "c11", transport="h2"))
     return jobs
